@@ -59,6 +59,16 @@ CLAIMED = {
                 "complete sites (9 project shapes x 4 option sets) with the real FORD and follows every link (not counted).",
         "note": "Partial: the existence of fragments and of entity pages is only checked by the bounded walk.",
     },
+    "C16": {
+        "engines": ["A", "S", "Bd"],
+        "technique": "contract-based deductive verification: block contracts (VCs from the AST, z3 / cvc5 strings) on find_used_modules' search loop, dict2obj's URL "
+                     "re-basing and the per-project body of load_external_modules (call-site preconditions, exception containment against assumed library raise sets); "
+                     "structural obligations on LINK_TYPES order and the export format; bounded export/import runs of real project pairs",
+        "text": "Narrow claim. Proved for all inputs: USE binds to the first match in local-then-external order; export './u' then import yields base (+) u; a remote base "
+                "reaches dict2obj slash-terminated and equal to the fetch location; no declared library exception escapes one external project's handling. Which entities "
+                "are exported (obj2dict recursion), their existence in A's output and the rendering of the links are covered by bounded real runs only (not counted).",
+        "note": "Partial: round-trip of the entity set is bounded; library raise sets and urljoin's value are assumptions.",
+    },
     "C14": {
         "engines": ["A", "Bd"],
         "technique": "contract-based deductive verification: VCs from the AST of FortranLine.__analyse (array-encoded line, bounded column windows) against "
@@ -179,4 +189,4 @@ CLAIMED = {
     },
 }
 _NB = "no obligations built yet for this property in the current commit (planned in DESIGN.md section 6; technique not switched)"
-NOT_APPLICABLE = {p: _NB for p in ["C16", "C17", "C18"]}
+NOT_APPLICABLE = {p: _NB for p in ["C17", "C18"]}
